@@ -85,6 +85,7 @@ def runOp (args impl : List String) : Option (String × String) := do
       else if ¬blocked ∧ n "inflight" ≠ 0 ∧ arg "expectinflight" "0" = "0" then "FAIL returned-while-started-iterations-still-running"
       else if n "startedAfter" ≠ 0 then "FAIL iteration-started-after-the-run-returned"
       else if n "progressAfter" ≠ 0 then "FAIL progress-reported-after-the-run-returned"
+      else if n "printAfter" > 0 then "FAIL progress-still-being-printed-after-the-run-returned"
       else if n "leak" ≠ 0 then "FAIL goroutine-of-the-run-remains"
       else if an "dur" "600" ≤ 10 ∧ n "started" ≠ 0 then "FAIL iteration-started-inside-the-10ms-guard"
       else if an "retmax" "0" > 0 ∧ n "ret" > an "retmax" "0" then "FAIL run-did-not-stop-on-time"
@@ -112,7 +113,9 @@ def runOp (args impl : List String) : Option (String × String) := do
       else if arg "mode" "constant" ≠ "file" ∧ arg "mode" "constant" ≠ "users" ∧ n "started" + res.getD 2 0 > n "sumrates" then "FAIL more-load-than-the-rate-values"
       else "ok"
     else if prop = "C18" then
-      if n "progressAfter" ≠ 0 then "FAIL progress-function-invoked-or-still-executing-after-the-run-stopped-its-runner"
+      if n "printAfter" > 0 then "FAIL progress-function-still-writing-after-the-run-stopped-its-runner"
+      else if n "progressAfterCancel" > 0 then "FAIL progress-function-invoked-after-cancellation"
+      else if n "progressAfter" ≠ 0 then "FAIL progress-function-invoked-or-still-executing-after-the-run-stopped-its-runner"
       else if n "leak" ≠ 0 then "FAIL goroutine-of-the-runner-remains"
       else "ok"
     else if prop = "C15" then
